@@ -24,7 +24,7 @@ RULE = (
     "C01-space arrays (int/float coefficients, 1-4 names incl. q10, shapes 0-d, size-1, single-term, constant, 1-3-d, transposed/"
     "sliced views) x {pickle protocols 0-5 via dumps, via simulated streams and with out-of-band buffers; copy.copy, deepcopy, "
     ".copy(); savetxt->loadtxt with fmt/delimiter/header/comments settings, both spellings, targets {text stream, bytes stream, "
-    "with/without encoding attribute, str/bytes/PathLike path} under a simulated locale; header-less numeric files}. Fault "
+    "with/without encoding attribute, str/bytes/PathLike path} under a simulated locale; integer files with coefficients beyond 2**53 loaded with an integer dtype; the same path written again (another polynomial, then a plain table) with a load after each; header-less numeric files}. Fault "
     "space per save: raise at the k-th write for EVERY k up to the number of writes the fault-free run made, and at close; per "
     "load: raise at every read-side call k. Distinct non-trivial = distinct (case, target kind, fault kind, position) where a "
     "fault fired inside the operation, plus distinct fault-free (case, target kind) round trips."
